@@ -13,6 +13,9 @@ From RV Require Import Proofs.ClipMask.
 From RV Require Import Model.RenderPrims.
 From RV Require Import Gen.LeafRender.
 From RV Require Import Proofs.ClipNest.
+From RV Require Import Model.ClipChk.
+From RV Require Import Gen.RenderExits.
+From Coq Require Import String.
 Local Open Scope Q_scope.
 
 (* clip, mask and opacity all multiply premultiplied channels by a factor in [0,1] *)
@@ -178,6 +181,21 @@ Print Assumptions C15_scale_chain_u8.
 Theorem C15_luminance_coef_byte : forall r g b a, is_byte (lum_mask_u8 r g b a).
 Proof. exact lum_coef_byte. Qed.
 Print Assumptions C15_luminance_coef_byte.
+
+
+(* ================================================================== round 5: clip children and mask content are always drawn *)
+(* clip.rs draws every clipPath child through path.rs::fill_path (clip_mode_flows_unchanged).  In the source-derived table of
+   conditional heads and early exits (Gen/RenderExits.v) fill_path has exactly: the zero-size test of the path's own bounds and the two
+   matches on fill rule / paint kind, with 5 exits - NO test involving the transform, the canvas or the pixmap, so a child that
+   overlaps the canvas is never culled; path.rs::render only tests visibility.  A new geometric fast path changes this obligation. *)
+Theorem C15_clip_children_not_culled :
+  exits_of "path.rs::fill_path" render_exits =
+    Some (["path.data().bounds().width() == 0.0 || path.data().bounds().height() == 0.0"; "match fill.rule()"; "match fill.paint()"]%string, 5%nat) /\
+  exits_of "path.rs::render" render_exits =
+    Some (["!path.is_visible()"; "path.paint_order() == usvg::PaintOrder::FillAndStroke"]%string, 1%nat) /\
+  clip_mode_flows_unchanged = true.
+Proof. repeat split; reflexivity. Qed.
+Print Assumptions C15_clip_children_not_culled.
 
 (* non-vacuity *)
 Example C15_ex_half : clip_factor [(false, 1 # 2); (false, 1 # 2)] 1 == 3 # 4.
